@@ -29,7 +29,7 @@ RULE = (
 )
 ASSUMPTIONS = [
     "X has full column rank and condition number <= 1e3 (generic family), so 'contained' means an exact linear image",
-    "closeness 1e-7 for invariances, 1e-6 for vanishing measures (measures are O(1) after standardisation)",
+    "closeness 1e-9 for invariances, 1e-10 for LRE == GRE, 1e-6 for vanishing measures (measures are O(1) after standardisation; the library computes in double precision)",
     "target-space rotation only with rotation-invariant model selection (one fixed alpha, or sklearn Ridge), as the property states",
     "LRE == GRE only with an order-independent estimator (one fixed alpha / sklearn Ridge without intercept)",
 ]
@@ -246,7 +246,7 @@ def check(case):
             else:
                 X2, Y2 = X, Y + par
             got = float(ev(name, X2, Y2, idx, est))
-            if abs(got - base) > 1e-7 * max(1.0, base):
+            if abs(got - base) > 1e-9 * max(1.0, base):
                 return r.fail(
                     "not-invariant-under-%s" % kind,
                     "%s(%dx%d -> %d, indices %s, estimator %s): %.10g vs %.10g" % (name, n, px, py, idx, est, got, base),
@@ -268,7 +268,7 @@ def check(case):
                 return r.fail("lre-undefined-or-negative", "n_local_points=%d: %s" % (nl, pw.tolist()))
             if abs(g - np.sqrt((pw ** 2).mean())) > 1e-9 * max(1.0, g):
                 return r.fail("global-not-rms-of-pointwise", "LRE n_local_points=%d" % nl)
-            if nl == ntr and np.abs(pw - gre).max() > 1e-7 * max(1.0, gre.max()):
+            if nl == ntr and np.abs(pw - gre).max() > 1e-10 * max(1.0, gre.max()):
                 return r.fail("lre-with-all-neighbours-differs-from-gre", "max diff %.3g (estimator %s, indices %s)" % (np.abs(pw - gre).max(), est, idx))
         if idx == "train=test":
             g = float(ev("GRE", X, Y, idx, est))
